@@ -195,7 +195,7 @@ fn run() {
 
 fn gen_case(rng: &mut Rng, out: &mut Out, tier: &str) {
     let nex = rng.range(1, 2) as usize;
-    let links: String = (0..nex).map(|_| if rng.chance(85) { 'H' } else if rng.chance(50) { 'C' } else { 'M' }).collect();
+    let links: String = (0..nex).map(|_| if rng.chance(80) { 'H' } else { ['C', 'M', 'U'][rng.below(3) as usize] }).collect();
     let mut defs: Vec<(usize, usize, usize)> = (0..nex).map(|e| (e, rng.below(3) as usize, 3)).collect();
     for _ in 0..rng.below(2) {
         defs.push((rng.below(nex as u64) as usize, rng.below(3) as usize, 3));
